@@ -104,7 +104,8 @@ PROPERTIES = {
             "quick": [B("tsan-small-a", "tsan", "small-a", 1500, 45), B("plain-small-a", "plain", "small-a", 3000, 25), B("plain-small-b", "plain", "small-b", 1000, 10),
                       B("tsan-shipped", "tsan", "shipped", 8, 30, workers=8, gate=2)],
             "thorough": [B("tsan-small-a", "tsan", "small-a", 40000, 420), B("tsan-small-b", "tsan", "small-b", 15000, 180), B("plain-small-a", "plain", "small-a", 150000, 300),
-                         B("plain-small-b", "plain", "small-b", 50000, 120), B("tsan-shipped", "tsan", "shipped", 300, 420, workers=8, gate=4), B("plain-shipped", "plain", "shipped", 300, 240, workers=8, gate=4), B("contract-audit", "assert", "small-a", 3000, 40)],
+                         B("plain-small-b", "plain", "small-b", 50000, 120), B("tsan-shipped", "tsan", "shipped", 300, 420, workers=8, gate=4), B("plain-shipped", "plain", "shipped", 300, 240, workers=8, gate=4), B("full-dataset-shipped-plain", "plain", "shipped", 2, 1200, workers=2, mode="fullshipped", gate=0),
+                         B("full-dataset-shipped-tsan", "tsan", "shipped", 1, 1800, workers=1, mode="fullshipped", gate=0), B("contract-audit", "assert", "small-a", 3000, 40)],
         },
     },
     "C08": {
